@@ -22,4 +22,7 @@ def templates(tier, seed):
                     if tier == "quick" and (N == 3 and (len(which) != 2 or shape == "frame_wide")):
                         continue
                     ts.append(Template(f"{shape}/{'+'.join(which) or 'none'}/N={N}", t_sub, (shape, N, list(which))))
+    import tmpl_pl
+
+    ts += [Template(tid, tmpl.pick(fn, LABELS), args) for tid, fn, args in tmpl_pl.subsample_cases(tier)]
     return ts
